@@ -14,7 +14,7 @@ META = {
             "the alias refusal in find_def dominates both entry points; R1 (shared with C06) one classifier. One obligation per site. N4 the three label classifiers agree; N5 qualified values; N6 the name an import is registered under and the name it is looked up by read the same fields of the import record; N7 = C05/S10 module qualifiers.",
     "explanation": "The usage search reports name.syntax().text_range(); N1 (decided by engine P for every token sequence) is "
                    "what makes such a range cover exactly one identifier token. N2/N3 are def-use and dominance facts on the MIR "
-                   "of ide::ide::rename. Decides token-exactness and gating, not the behaviour.",
+                   "of ide::ide::rename. Decides token-exactness and gating, not the behaviour. N17 = C14 U12 (engine U). N18 = C05 S7/S8. N19 the binders of one name in the alternatives of a clause classify as one Local.",
     "not_decided": "that the found set is complete and that resolution is unchanged after applying the edits (behavioural).",
     "trusted_base": ["rustc MIR", "engine P's leaf model (C02/M)", "rowan: a node's text_range is the union of its tokens"],
     "assumptions": [],
